@@ -57,6 +57,10 @@ SHORT.update({
  'C06-3': ('`computeRequesterAuthenticateBoxKey`: `:=` shadow, the box key no longer depends on the target account', 'a requester targeting another account relayed to this responder'),
  'C07-3': ('`ContactRequestIncomingReceived` guard loses `ContactStateRemoved`', 'block, unblock, incoming request'),
  'C08-3': ('`WaitForItem` drains the signal channel after releasing the lock', 'an `Add` between the unlock and the drain'),
+ 'C09-3': ('`RegisterChainKey` treats the own announcement as own (device comparison) and `registerChainKey` re-registers when the stored counter is not newer: unlocked check-then-put of the old chain key', 'the own announcement replayed while the first message is being sealed'),
+ 'C11-3': ('equal-key guard of `restoreAccountKeys` compares the two blobs instead of the parsed keys', 'the same key in two encodings (legacy 96-byte layout)'),
+ 'C13-3': ('`GroupMetadataList`: the channel between replay and send loop becomes buffered', '`until_now`: cancel races the buffered tail'),
+ 'C19-3': ('`AESCTRStream` IV guard narrowed to `<`', 'an oversized IV'),
  'C10-3': ('chain key of a peer written before the next precomputed message key on the receive path', 'a crash between the two writes; the message one window ahead'),
  'C12-3': ('`Group.IsValid` returns nil when `SecretSig` is empty', 'an invitation with the signature stripped'),
  'C14-3': ('`createOutOfStoreGroupReference` no longer depends on the sender device', 'two senders in one group whose windows drift apart'),
